@@ -471,6 +471,12 @@ impl DefragQueue {
         let frame_index = match frame.header.is_last() {
             // Operation only on the last frame
             true => {
+                // Only the first last frame defines the packet size. A further one is rejected
+                // before it can change the size of a packet whose payload it does not provide.
+                if self.final_packet_size.is_some() {
+                    return Err(DefragmentInsertError::Duplicate(frame.header));
+                }
+
                 // If we receive the last frame, we know the final packet size.
                 let final_packet_size = frame.header.frame_offset as usize + frame.fragment.len();
                 self.final_packet_size = Some(final_packet_size);
